@@ -38,7 +38,7 @@ use mos_core::codegen::{
     codegen, Analysis, CodegenContext, CodegenOptions, Definition, DefinitionType,
 };
 use mos_core::errors::{map_io_error, CoreResult, Diagnostics};
-use mos_core::parser::code_map::{LineCol, SpanLoc};
+use mos_core::parser::code_map::{File, LineCol, SpanLoc};
 use mos_core::parser::source::ParsingSource;
 use mos_core::parser::{parse, ParseTree};
 use serde::de::DeserializeOwned;
@@ -49,23 +49,58 @@ use std::sync::atomic::{AtomicUsize, Ordering};
 use std::sync::{Arc, Mutex, MutexGuard};
 pub use traits::*;
 
-fn to_line_col(pos: &lsp_types::Position) -> LineCol {
-    LineCol {
-        line: pos.line as usize,
-        column: pos.character as usize,
+/// The client counts the characters of a line in UTF-16 code units, the code map counts characters and strings are
+/// sliced by bytes. This is the byte offset in `line` of a position's `character` (clamped to the end of the line; a
+/// position inside a surrogate pair is the character's start).
+fn character_to_byte_offset(line: &str, character: u32) -> usize {
+    let mut units = 0;
+    for (offset, c) in line.char_indices() {
+        if units + c.len_utf16() > character as usize {
+            return offset;
+        }
+        units += c.len_utf16();
+    }
+    line.len()
+}
+
+fn byte_offset_to_character(line: &str, offset: usize) -> u32 {
+    line[..offset].encode_utf16().count() as u32
+}
+
+fn to_line_col(file: Option<&File>, pos: &lsp_types::Position) -> LineCol {
+    let line = pos.line as usize;
+    let column = match file {
+        Some(file) if line < file.num_lines() => {
+            let text = file.source_line(line);
+            text[..character_to_byte_offset(text, pos.character)]
+                .chars()
+                .count()
+        }
+        _ => pos.character as usize,
+    };
+    LineCol { line, column }
+}
+
+fn to_position(file: &File, lc: LineCol) -> lsp_types::Position {
+    let character = if lc.line < file.num_lines() {
+        file.source_line(lc.line)
+            .chars()
+            .take(lc.column)
+            .map(|c| c.len_utf16())
+            .sum::<usize>()
+    } else {
+        lc.column
+    };
+    lsp_types::Position {
+        line: lc.line as u32,
+        character: character as u32,
     }
 }
 
 fn to_range(s: SpanLoc) -> lsp_types::Range {
     lsp_types::Range {
-        start: lsp_types::Position {
-            line: s.begin.line as u32,
-            character: s.begin.column as u32,
-        },
-        end: lsp_types::Position {
-            line: s.end.line as u32,
-            character: s.end.column as u32,
-        },
+        start: to_position(&s.file, s.begin),
+        end: to_position(&s.file, s.end),
     }
 }
 
@@ -334,10 +369,19 @@ impl LspContext {
         analysis: &'a Analysis,
         pos: &'a TextDocumentPositionParams,
     ) -> Vec<(&'a DefinitionType, &'a Definition)> {
-        analysis.find(
-            pos.text_document.uri.to_file_path().unwrap(),
-            to_line_col(&pos.position),
-        )
+        let path = pos.text_document.uri.to_file_path().unwrap();
+        let line_col = self.to_line_col(&path, &pos.position);
+        analysis.find(path, line_col)
+    }
+
+    /// A position in one of the project's files, as the code map counts it
+    pub(crate) fn to_line_col(&self, path: &Path, pos: &lsp_types::Position) -> LineCol {
+        let file = self
+            .tree
+            .as_ref()
+            .and_then(|tree| tree.try_get_file(path))
+            .map(|f| f.file.clone());
+        to_line_col(file.as_deref(), pos)
     }
 }
 
